@@ -4,7 +4,7 @@
    harness/lib.py — keep the format  "| <n> (* <name> *) =>". *)
 From Dlms Require Import Base CrcModel CrcSpec FieldsModel FieldsSpec AddrModel AddrSpec WrapperModel WrapperSpec
   TimeModel TimeSpec AxdrModel AxdrSpec AxdrBridge FrameModel FrameSpec HdlcConnModel HdlcScript HdlcLinkSpec
-  ParsersModel AssocModel AssocSpec TransportModel ClientModel Aes Gcm SecurityModel XdlmsModel XdlmsSpec AcseModel AcseSpec.
+  ParsersModel AssocModel AssocSpec TransportModel ClientModel Aes Gcm SecurityModel XdlmsModel XdlmsSpec AcseModel AcseSpec ConnModel.
 
 Definition v_bools (l : list bool) : V := VList (map VBool l).
 Definition as_bools (v : V) : list bool := map as_b (as_list v).
@@ -228,6 +228,36 @@ Definition v_aare (a : aare) : V :=
 Definition as_release (v : V) : release := {| r_reason := as_optn (arg 0 v); r_user := as_optapdu (arg 1 v) |}.
 Definition v_release (a : release) : V := VList [v_optn (r_reason a); v_opt v_apdu (r_user a)].
 
+(* ---- the DLMS connection (C04, C06, C07, C08) ---- *)
+Definition as_cfg (v : V) : cfg :=
+  {| k_title := as_bytes (arg 0 v); k_ek := as_optbytes (arg 1 v); k_ak := as_optbytes (arg 2 v); k_suite := as_n (arg 3 v);
+     k_pre := as_b (arg 4 v); k_challenge := as_bytes (arg 5 v) |}.
+Definition as_cst (v : V) : cst :=
+  {| c_state := as_n (arg 0 v); c_cic := as_n (arg 1 v); c_mic := as_n (arg 2 v); c_mtitle := as_optbytes (arg 3 v); c_auth := as_optn (arg 4 v);
+     c_mchallenge := as_optbytes (arg 5 v); c_conf := as_bools (arg 6 v); c_maxpdu := as_n (arg 7 v) |}.
+Definition v_cst (c : cst) : V :=
+  VList [VN (c_state c); VN (c_cic c); VN (c_mic c); v_optb (c_mtitle c); v_optn (c_auth c); v_optb (c_mchallenge c); v_bools (c_conf c); VN (c_maxpdu c)].
+Definition as_msg (v : V) : msg :=
+  let t := as_n (arg 0 v) in let x := arg 1 v in
+  if t =? 1 then MAarq (as_aarq x) else if t =? 2 then MAare (as_aare x) else if t =? 3 then MRlrq (as_release x)
+  else if t =? 4 then MRlre (as_release x) else MX (as_apdu x).
+Definition v_msg (m : msg) : V :=
+  match m with
+  | MX a => VList [VN 0; v_apdu a] | MAarq q => VList [VN 1; v_aarq q] | MAare e => VList [VN 2; v_aare e]
+  | MRlrq r => VList [VN 3; v_release r] | MRlre r => VList [VN 4; v_release r]
+  end.
+(* one scripted step: ["send", msg] | ["recv", bytes] | ["hls_reply"]; answers [result, connection afterwards] *)
+Definition dlms_step (k : cfg) (c : cst) (o : V) : V * cst :=
+  let t := as_n (arg 0 o) in
+  if t =? 0 then let '(r, c') := dlms_send aes_encrypt k c (as_msg (arg 1 o)) in (v_res VBytes r, c')
+  else if t =? 1 then let '(r, c') := dlms_next_event aes_encrypt k c (as_bytes (arg 1 o)) in (v_res v_msg r, c')
+  else let '(r, c') := dlms_hls_reply aes_encrypt k c in (v_res VBytes r, c').
+Fixpoint dlms_script (k : cfg) (c : cst) (ops : list V) : list V :=
+  match ops with
+  | [] => []
+  | o :: r => let '(out, c') := dlms_step k c o in VList [out; v_cst c'] :: dlms_script k c' r
+  end.
+
 Definition run (op : N) (a : V) : V :=
   match op with
   (* ---- crc.py model ---- *)
@@ -406,5 +436,7 @@ Definition run (op : N) (a : V) : V :=
   | 191 (* spec_aare *) => let x := as_aare a in if wf_aare x then VBytes (std_aare x) else VNone
   | 192 (* spec_rlrq *) => let x := as_release a in if wf_release GenEnums.enum_ReleaseRequestReason x then VBytes (std_release 98 x) else VNone
   | 193 (* spec_rlre *) => let x := as_release a in if wf_release GenEnums.enum_ReleaseResponseReason x then VBytes (std_release 99 x) else VNone
+  | 200 (* dlms_script *) => VList (dlms_script (as_cfg (arg 0 a)) (as_cst (arg 1 a)) (as_list (arg 2 a)))
+  | 201 (* msg_from_bytes *) => v_res v_msg (msg_from_bytes (as_bytes a))
   | _ => bad_args
   end.
